@@ -132,7 +132,7 @@ pub fn run(tier: &str, seed: u64, out: &str) {
         }
         drop(tx);
         let mut done = 0;
-        let deadline = Duration::from_secs(if tier == "thorough" { 900 } else { 120 });
+        let deadline = Duration::from_secs(if tier == "thorough" { 300 } else { 120 });
         let start = std::time::Instant::now();
         let stall = Duration::from_secs(60);
         let mut last_progress = (progress.load(Ordering::Relaxed), std::time::Instant::now());
